@@ -11,7 +11,7 @@ from ..engines import totality as T
 def run(ctx):
     # language-level slips in the modules the property is anchored in (engine Y)
     from ..engines import gotchas as GY
-    GY.run(ctx, ('rule_db.base', 'rule_db.forget', 'rule_db.forest', 'rule_db.abstract'))
+    GY.run(ctx, ('rule_db.base', 'rule_db.forget', 'rule_db.forest', 'rule_db.abstract', 'tree_searcher'))
     ctx.floor("Y", 1)
     ctx.extra["explanation"] = (
         "static analysis (ast, no execution) of rule_db/base.py, rule_db/forget.py and every "
